@@ -1642,4 +1642,279 @@ pub proof fn lemma_strict_lax_compose_general<O: Clone, A: Clone>(f: OpenHypergr
     assert(s.h.s.sources.table@ =~= r.h.s.sources.table@ && s.h.t.sources.table@ =~= r.h.t.sources.table@);
     phi
 }
+
+/// C10, second sentence, tensor, GENERAL operands: the strictification of the lax tensor is isomorphic to the strict tensor of the
+/// strictifications (the sum of the operands' coequalizers is a coequalizer of the pending pairs of the lax tensor)
+pub proof fn lemma_strict_lax_tensor_general<O: Clone, A: Clone>(f: OpenHypergraph<O, A>, g: OpenHypergraph<O, A>, c: OpenHypergraph<O, A>,
+        s: crate::open_hypergraph::OpenHypergraph<O, A>, sf: crate::open_hypergraph::OpenHypergraph<O, A>, sg: crate::open_hypergraph::OpenHypergraph<O, A>,
+        r: crate::open_hypergraph::OpenHypergraph<O, A>) -> (phi: Seq<usize>)
+    requires f.wf(), g.wf(), lawful_clone::<O>(), lawful_clone::<A>(),
+        f.hypergraph.nodes@.len() + g.hypergraph.nodes@.len() <= usize::MAX,
+        is_lax_tensor(c, f, g), c.hypergraph.nodes@ =~= f.hypergraph.nodes@ + g.hypergraph.nodes@, c.hypergraph.edges@ =~= f.hypergraph.edges@ + g.hypergraph.edges@,
+        is_strictification(s, c), is_strictification(sf, f), is_strictification(sg, g), sf.wf(), sg.wf(), s.wf(),
+        is_tensor(r, sf, sg),
+    ensures node_iso(r, s, phi)
+{
+    let nf = f.hypergraph.nodes@.len() as int; let ng = g.hypergraph.nodes@.len() as int; let nn = nf + ng; let m = f.hypergraph.adjacency@.len() as int;
+    let (midf, qff) = choose|mid: OpenHypergraph<O, A>, q: FiniteFunction|
+        #[trigger] is_quotient_of(f.hypergraph, mid.hypergraph, q) && mapped(f.sources@, mid.sources@, q.table@) && mapped(f.targets@, mid.targets@, q.table@)
+        && is_strict_of(sf.h, mid.hypergraph) && sf.s.table@ =~= ids(mid.sources@) && sf.t.table@ =~= ids(mid.targets@)
+        && (lawful_clone::<O>() ==> sf.h.w@ == mid.hypergraph.nodes@) && (lawful_clone::<A>() ==> sf.h.x@ == mid.hypergraph.edges@);
+    let (midg, qgf) = choose|mid: OpenHypergraph<O, A>, q: FiniteFunction|
+        #[trigger] is_quotient_of(g.hypergraph, mid.hypergraph, q) && mapped(g.sources@, mid.sources@, q.table@) && mapped(g.targets@, mid.targets@, q.table@)
+        && is_strict_of(sg.h, mid.hypergraph) && sg.s.table@ =~= ids(mid.sources@) && sg.t.table@ =~= ids(mid.targets@)
+        && (lawful_clone::<O>() ==> sg.h.w@ == mid.hypergraph.nodes@) && (lawful_clone::<A>() ==> sg.h.x@ == mid.hypergraph.edges@);
+    let (midc, qcf) = choose|mid: OpenHypergraph<O, A>, q: FiniteFunction|
+        #[trigger] is_quotient_of(c.hypergraph, mid.hypergraph, q) && mapped(c.sources@, mid.sources@, q.table@) && mapped(c.targets@, mid.targets@, q.table@)
+        && is_strict_of(s.h, mid.hypergraph) && s.s.table@ =~= ids(mid.sources@) && s.t.table@ =~= ids(mid.targets@)
+        && (lawful_clone::<O>() ==> s.h.w@ == mid.hypergraph.nodes@) && (lawful_clone::<A>() ==> s.h.x@ == mid.hypergraph.edges@);
+    let qf = qff.table@; let kf = qff.target as int; let qg = qgf.table@; let kg = qgf.target as int; let qc = qcf.table@; let kc = qcf.target as int;
+    assert(sf.h.w@.len() == kf && sg.h.w@.len() == kg);
+    assert(kf <= nf && kg <= ng) by {
+        if nf == 0 && kf > 0 { assert(hit(qf, 0, 0)); } if ng == 0 && kg > 0 { assert(hit(qg, 0, 0)); }
+        if kf > nf { lemma_surjection_small(qf, kf, nf); } if kg > ng { lemma_surjection_small(qg, kg, ng); }
+    }
+    // the pending pairs of f and g, as node numbers
+    let fs0 = ids(f.hypergraph.quotient.0@); let ft0 = ids(f.hypergraph.quotient.1@); let gs0 = ids(g.hypergraph.quotient.0@); let gt0 = ids(g.hypergraph.quotient.1@);
+    assert forall|j: int| 0 <= j < fs0.len() implies 0 <= #[trigger] fs0[j] < nf && 0 <= ft0[j] < nf by { assert(f.hypergraph.quotient.0@[j].0 < nf && f.hypergraph.quotient.1@[j].0 < nf); }
+    assert forall|j: int| 0 <= j < gs0.len() implies 0 <= #[trigger] gs0[j] < ng && 0 <= gt0[j] < ng by { assert(g.hypergraph.quotient.0@[j].0 < ng && g.hypergraph.quotient.1@[j].0 < ng); }
+    lemma_coeq_sum(qf, kf, fs0, ft0, nf, qg, kg, gs0, gt0, ng);
+    let q1 = sum_map(qf, kf, qg);
+    let s1 = fs0 + shifted(gs0, nf); let t1 = ft0 + shifted(gt0, nf);
+    let qq = q1; let kp = kf + kg;
+    // ... and those are the pending pairs of the lax composite
+    let cs = ids(c.hypergraph.quotient.0@); let ct = ids(c.hypergraph.quotient.1@);
+    assert(cs =~= s1) by {
+        assert forall|j: int| 0 <= j < cs.len() implies cs[j] == s1[j] by {
+            let l0 = fs0.len() as int;
+            if j >= l0 { assert(shift_ids(g.hypergraph.quotient.0@, nf)[j - l0].0 == g.hypergraph.quotient.0@[j - l0].0 + nf); }
+        }
+    }
+    assert(ct =~= t1) by {
+        assert forall|j: int| 0 <= j < ct.len() implies ct[j] == t1[j] by {
+            let l0 = ft0.len() as int;
+            if j >= l0 { assert(shift_ids(g.hypergraph.quotient.1@, nf)[j - l0].0 == g.hypergraph.quotient.1@[j - l0].0 + nf); }
+        }
+    }
+    let ss = s1; let tt = t1;
+    lemma_coeq_unique(qq, kp, qc, kc, ss, tt, nn);
+    if nn == 0 && kp > 0 { assert(hit(qq, 0, 0)); }
+    if nn == 0 && kc > 0 { assert(hit(qc, 0, 0)); }
+    let phi = lemma_factor_iso(qq, kp, ss, tt, nn, qc, kc);
+    // what qq is on the two parts
+    assert forall|a: int| 0 <= a < nf implies (#[trigger] qq[a]) == qf[a] by { }
+    assert forall|a: int| 0 <= a < ng implies (#[trigger] qq[nf + a]) == kf + qg[a] by { }
+    // labels
+    assert forall|x: int| 0 <= x < kp implies s.h.w@[(#[trigger] phi[x]) as int] == r.h.w@[x] by {
+        assert(hit(qq, x, nn));
+        let a = choose|a: int| 0 <= a < nn && #[trigger] qq[a] == x;
+        assert(phi[qq[a] as int] == qc[a]);
+        assert(midc.hypergraph.nodes@[qc[a] as int] == c.hypergraph.nodes@[a]);
+        assert(c.hypergraph.nodes@[a] == (f.hypergraph.nodes@ + g.hypergraph.nodes@)[a]);
+        if a < nf { assert(qf[a] < kf); assert(r.h.w@[qf[a] as int] == sf.h.w@[qf[a] as int]); assert(midf.hypergraph.nodes@[qf[a] as int] == f.hypergraph.nodes@[a]); }
+        else { assert(qg[a - nf] < kg); assert(r.h.w@[kf + qg[a - nf]] == sg.h.w@[qg[a - nf] as int]); assert(midg.hypergraph.nodes@[qg[a - nf] as int] == g.hypergraph.nodes@[a - nf]); }
+    }
+    // incidence
+    let sl = src_lens(midc.hypergraph.adjacency@); let tl = tgt_lens(midc.hypergraph.adjacency@);
+    let sfl = sf.h.s.sources.table@; let sgl = sg.h.s.sources.table@; let tfl = sf.h.t.sources.table@; let tgl = sg.h.t.sources.table@;
+    assert(sfl =~= src_lens(midf.hypergraph.adjacency@) && sgl =~= src_lens(midg.hypergraph.adjacency@) && tfl =~= tgt_lens(midf.hypergraph.adjacency@) && tgl =~= tgt_lens(midg.hypergraph.adjacency@));
+    assert(sl =~= sfl + sgl && tl =~= tfl + tgl) by {
+        assert forall|j: int| 0 <= j < sl.len() implies sl[j] == (sfl + sgl)[j] && tl[j] == (tfl + tgl)[j] by {
+            let e = midc.hypergraph.adjacency@[j]; let ce = c.hypergraph.adjacency@[j];
+            assert(mapped(ce.sources@, e.sources@, qc) && mapped(ce.targets@, e.targets@, qc));
+            if j < m { assert(ce.sources@ == f.hypergraph.adjacency@[j].sources@ && ce.targets@ == f.hypergraph.adjacency@[j].targets@);
+                       assert(mapped(f.hypergraph.adjacency@[j].sources@, midf.hypergraph.adjacency@[j].sources@, qf) && mapped(f.hypergraph.adjacency@[j].targets@, midf.hypergraph.adjacency@[j].targets@, qf)); }
+            else { let j2 = j - m; assert(c.hypergraph.adjacency@[m + j2].sources@ =~= shift_ids(g.hypergraph.adjacency@[j2].sources@, nf) && c.hypergraph.adjacency@[m + j2].targets@ =~= shift_ids(g.hypergraph.adjacency@[j2].targets@, nf));
+                   assert(mapped(g.hypergraph.adjacency@[j2].sources@, midg.hypergraph.adjacency@[j2].sources@, qg) && mapped(g.hypergraph.adjacency@[j2].targets@, midg.hypergraph.adjacency@[j2].targets@, qg)); }
+        }
+    }
+    let lf = sf.h.s.values.table@.len() as int; let lg = sg.h.s.values.table@.len() as int;
+    let mf = sf.h.t.values.table@.len() as int; let mg = sg.h.t.values.table@.len() as int;
+    lemma_psum_concat(sfl, sgl, sgl.len() as int); lemma_psum_concat(tfl, tgl, tgl.len() as int);
+    assert(s.h.s.values.table@.len() == lf + lg && s.h.t.values.table@.len() == mf + mg);
+    assert(r.h.s.values.table@.len() == lf + lg && r.h.t.values.table@.len() == mf + mg);
+    assert forall|i: int| 0 <= i < lf + lg implies (#[trigger] s.h.s.values.table@[i]) == phi[r.h.s.values.table@[i] as int] by {
+        if i < lf {
+            let (j, kk) = lemma_seg_find(sfl, i);
+            lemma_psum_prefix(sl, sfl, j); lemma_psum_prefix(sl, sfl, j + 1);
+            assert(seg_at(sl, j, kk) == seg_at(sfl, j, kk));
+            let x = f.hypergraph.adjacency@[j].sources@[kk].0 as int; assert(x < nf);
+            assert(s.h.s.values.table@[seg_at(sl, j, kk)] == midc.hypergraph.adjacency@[j].sources@[kk].0);
+            assert(mapped(c.hypergraph.adjacency@[j].sources@, midc.hypergraph.adjacency@[j].sources@, qc));
+            assert(sf.h.s.values.table@[seg_at(sfl, j, kk)] == midf.hypergraph.adjacency@[j].sources@[kk].0);
+            assert(mapped(f.hypergraph.adjacency@[j].sources@, midf.hypergraph.adjacency@[j].sources@, qf));
+            assert(r.h.s.values.table@[i] == sf.h.s.values.table@[i]);
+            assert(phi[qq[x] as int] == qc[x]);
+        } else {
+            let (j, kk) = lemma_seg_find(sgl, i - lf);
+            lemma_psum_concat(sfl, sgl, j);
+            assert(seg_at(sl, m + j, kk) == lf + seg_at(sgl, j, kk));
+            let y = g.hypergraph.adjacency@[j].sources@[kk].0 as int; assert(y < ng);
+            assert(s.h.s.values.table@[seg_at(sl, m + j, kk)] == midc.hypergraph.adjacency@[m + j].sources@[kk].0);
+            assert(mapped(c.hypergraph.adjacency@[m + j].sources@, midc.hypergraph.adjacency@[m + j].sources@, qc));
+            assert(c.hypergraph.adjacency@[m + j].sources@ =~= shift_ids(g.hypergraph.adjacency@[j].sources@, nf));
+            assert(sg.h.s.values.table@[seg_at(sgl, j, kk)] == midg.hypergraph.adjacency@[j].sources@[kk].0);
+            assert(mapped(g.hypergraph.adjacency@[j].sources@, midg.hypergraph.adjacency@[j].sources@, qg));
+            assert(sf.h.s.values.target == kf); assert(r.h.s.values.table@[i] == kf + sg.h.s.values.table@[i - lf]);
+            assert(phi[qq[nf + y] as int] == qc[nf + y]);
+        }
+    }
+    assert forall|i: int| 0 <= i < mf + mg implies (#[trigger] s.h.t.values.table@[i]) == phi[r.h.t.values.table@[i] as int] by {
+        if i < mf {
+            let (j, kk) = lemma_seg_find(tfl, i);
+            lemma_psum_prefix(tl, tfl, j); lemma_psum_prefix(tl, tfl, j + 1);
+            assert(seg_at(tl, j, kk) == seg_at(tfl, j, kk));
+            let x = f.hypergraph.adjacency@[j].targets@[kk].0 as int; assert(x < nf);
+            assert(s.h.t.values.table@[seg_at(tl, j, kk)] == midc.hypergraph.adjacency@[j].targets@[kk].0);
+            assert(mapped(c.hypergraph.adjacency@[j].targets@, midc.hypergraph.adjacency@[j].targets@, qc));
+            assert(sf.h.t.values.table@[seg_at(tfl, j, kk)] == midf.hypergraph.adjacency@[j].targets@[kk].0);
+            assert(mapped(f.hypergraph.adjacency@[j].targets@, midf.hypergraph.adjacency@[j].targets@, qf));
+            assert(r.h.t.values.table@[i] == sf.h.t.values.table@[i]);
+            assert(phi[qq[x] as int] == qc[x]);
+        } else {
+            let (j, kk) = lemma_seg_find(tgl, i - mf);
+            lemma_psum_concat(tfl, tgl, j);
+            assert(seg_at(tl, m + j, kk) == mf + seg_at(tgl, j, kk));
+            let y = g.hypergraph.adjacency@[j].targets@[kk].0 as int; assert(y < ng);
+            assert(s.h.t.values.table@[seg_at(tl, m + j, kk)] == midc.hypergraph.adjacency@[m + j].targets@[kk].0);
+            assert(mapped(c.hypergraph.adjacency@[m + j].targets@, midc.hypergraph.adjacency@[m + j].targets@, qc));
+            assert(c.hypergraph.adjacency@[m + j].targets@ =~= shift_ids(g.hypergraph.adjacency@[j].targets@, nf));
+            assert(sg.h.t.values.table@[seg_at(tgl, j, kk)] == midg.hypergraph.adjacency@[j].targets@[kk].0);
+            assert(mapped(g.hypergraph.adjacency@[j].targets@, midg.hypergraph.adjacency@[j].targets@, qg));
+            assert(sf.h.t.values.target == kf); assert(r.h.t.values.table@[i] == kf + sg.h.t.values.table@[i - mf]);
+            assert(phi[qq[nf + y] as int] == qc[nf + y]);
+        }
+    }
+    // interfaces
+    assert forall|i: int| 0 <= i < r.s.table@.len() implies (#[trigger] s.s.table@[i]) == phi[r.s.table@[i] as int] by {
+        assert(ids(midc.sources@)[i] == midc.sources@[i].0);
+        if i < sf.s.table@.len() {
+            let x = f.sources@[i].0 as int; assert(x < nf);
+            assert(ids(midf.sources@)[i] == midf.sources@[i].0);
+            assert(r.s.table@[i] == sf.s.table@[i]);
+            assert(phi[qq[x] as int] == qc[x]);
+        } else {
+            let i2 = i - sf.s.table@.len(); let y = g.sources@[i2].0 as int; assert(y < ng);
+            assert(ids(midg.sources@)[i2] == midg.sources@[i2].0);
+            assert(shift_ids(g.sources@, nf)[i2].0 == g.sources@[i2].0 + nf);
+            assert(r.s.table@[i] == kf + sg.s.table@[i2]);
+            assert(phi[qq[nf + y] as int] == qc[nf + y]);
+        }
+    }
+    assert forall|i: int| 0 <= i < r.t.table@.len() implies (#[trigger] s.t.table@[i]) == phi[r.t.table@[i] as int] by {
+        assert(ids(midc.targets@)[i] == midc.targets@[i].0);
+        if i < sf.t.table@.len() {
+            let x = f.targets@[i].0 as int; assert(x < nf);
+            assert(ids(midf.targets@)[i] == midf.targets@[i].0);
+            assert(r.t.table@[i] == sf.t.table@[i]);
+            assert(phi[qq[x] as int] == qc[x]);
+        } else {
+            let i2 = i - sf.t.table@.len(); let y = g.targets@[i2].0 as int; assert(y < ng);
+            assert(ids(midg.targets@)[i2] == midg.targets@[i2].0);
+            assert(shift_ids(g.targets@, nf)[i2].0 == g.targets@[i2].0 + nf);
+            assert(r.t.table@[i] == kf + sg.t.table@[i2]);
+            assert(phi[qq[nf + y] as int] == qc[nf + y]);
+        }
+    }
+    assert(s.h.x@ =~= r.h.x@);
+    assert(s.h.s.sources.table@ =~= r.h.s.sources.table@ && s.h.t.sources.table@ =~= r.h.t.sources.table@);
+    phi
+}
+''')
+
+raw(r'''
+/// C10, second sentence, identity and spiders: the lax identity / spider is the image of the strict one under from_strict's relation,
+/// so its strictification is the strict identity / spider renumbered by a node bijection (corollaries of lemma_roundtrip_open;
+/// the lax symmetry is literally from_strict(strict twist), to which lemma_roundtrip_open applies as it stands)
+pub proof fn lemma_strict_lax_spider<O: Clone, A: Clone>(l: OpenHypergraph<O, A>, r: crate::open_hypergraph::OpenHypergraph<O, A>, s: crate::open_hypergraph::OpenHypergraph<O, A>) -> (phi: Seq<usize>)
+    requires r.wf(), lawful_clone::<O>(), lawful_clone::<A>(),
+        // r is a strict spider (no hyperedges), l the lax spider with the same legs and labels (the postconditions of the two `spider`s)
+        r.h.x@.len() == 0 && r.h.s.sources.table@.len() == 0 && r.h.t.sources.table@.len() == 0,
+        l.hypergraph.nodes@ == r.h.w@ && l.hypergraph.edges@.len() == 0 && l.hypergraph.adjacency@.len() == 0
+            && l.hypergraph.quotient.0@.len() == 0 && l.hypergraph.quotient.1@.len() == 0,
+        ids(l.sources@) =~= r.s.table@ && ids(l.targets@) =~= r.t.table@,
+        is_strictification(s, l),
+    ensures node_iso(r, s, phi)
+{
+    assert(l.hypergraph.edges@ =~= r.h.x@);
+    assert(is_lax_of(l.hypergraph, r.h));
+    lemma_roundtrip_open(r, l, s)
+}
+''')
+
+raw(r'''
+/// C10, second sentence, dagger: strictification commutes with the dagger up to a node bijection (both strictifications quotient by
+/// coequalizers of the same pending pairs)
+pub proof fn lemma_strict_lax_dagger<O: Clone, A: Clone>(l: OpenHypergraph<O, A>, ld: OpenHypergraph<O, A>,
+        s: crate::open_hypergraph::OpenHypergraph<O, A>, sd: crate::open_hypergraph::OpenHypergraph<O, A>, d: crate::open_hypergraph::OpenHypergraph<O, A>) -> (phi: Seq<usize>)
+    requires l.wf(), lawful_clone::<O>(), lawful_clone::<A>(), l.hypergraph.nodes@.len() <= usize::MAX,
+        // ld is the lax dagger of l (postcondition of the lax `dagger`)
+        ld.sources@ == l.targets@ && ld.targets@ == l.sources@ && ld.hypergraph.adjacency@ == l.hypergraph.adjacency@
+            && ld.hypergraph.quotient.0@ == l.hypergraph.quotient.0@ && ld.hypergraph.quotient.1@ == l.hypergraph.quotient.1@
+            && ld.hypergraph.nodes@ == l.hypergraph.nodes@ && ld.hypergraph.edges@ == l.hypergraph.edges@,
+        is_strictification(s, l), is_strictification(sd, ld), s.wf(), is_dagger(d, s),
+    ensures node_iso(d, sd, phi)
+{
+    let n = l.hypergraph.nodes@.len() as int;
+    let (mid, qf) = choose|mid: OpenHypergraph<O, A>, q: FiniteFunction|
+        #[trigger] is_quotient_of(l.hypergraph, mid.hypergraph, q) && mapped(l.sources@, mid.sources@, q.table@) && mapped(l.targets@, mid.targets@, q.table@)
+        && is_strict_of(s.h, mid.hypergraph) && s.s.table@ =~= ids(mid.sources@) && s.t.table@ =~= ids(mid.targets@)
+        && (lawful_clone::<O>() ==> s.h.w@ == mid.hypergraph.nodes@) && (lawful_clone::<A>() ==> s.h.x@ == mid.hypergraph.edges@);
+    let (midd, qdf) = choose|mid: OpenHypergraph<O, A>, q: FiniteFunction|
+        #[trigger] is_quotient_of(ld.hypergraph, mid.hypergraph, q) && mapped(ld.sources@, mid.sources@, q.table@) && mapped(ld.targets@, mid.targets@, q.table@)
+        && is_strict_of(sd.h, mid.hypergraph) && sd.s.table@ =~= ids(mid.sources@) && sd.t.table@ =~= ids(mid.targets@)
+        && (lawful_clone::<O>() ==> sd.h.w@ == mid.hypergraph.nodes@) && (lawful_clone::<A>() ==> sd.h.x@ == mid.hypergraph.edges@);
+    let q = qf.table@; let k = qf.target as int; let q2 = qdf.table@; let k2 = qdf.target as int;
+    let ps = ids(l.hypergraph.quotient.0@); let pt = ids(l.hypergraph.quotient.1@);
+    assert forall|j: int| 0 <= j < ps.len() implies 0 <= #[trigger] ps[j] < n && 0 <= pt[j] < n by { assert(l.hypergraph.quotient.0@[j].0 < n && l.hypergraph.quotient.1@[j].0 < n); }
+    lemma_coeq_unique(q, k, q2, k2, ps, pt, n);
+    if n == 0 && k > 0 { assert(hit(q, 0, 0)); }
+    if n == 0 && k2 > 0 { assert(hit(q2, 0, 0)); }
+    let phi = lemma_factor_iso(q, k, ps, pt, n, q2, k2);
+    assert forall|x: int| 0 <= x < k implies sd.h.w@[(#[trigger] phi[x]) as int] == d.h.w@[x] by {
+        assert(hit(q, x, n));
+        let a = choose|a: int| 0 <= a < n && #[trigger] q[a] == x;
+        assert(phi[q[a] as int] == q2[a]);
+        assert(mid.hypergraph.nodes@[q[a] as int] == l.hypergraph.nodes@[a] && midd.hypergraph.nodes@[q2[a] as int] == ld.hypergraph.nodes@[a]);
+    }
+    let sl = src_lens(mid.hypergraph.adjacency@); let tl = tgt_lens(mid.hypergraph.adjacency@);
+    let sl2 = src_lens(midd.hypergraph.adjacency@); let tl2 = tgt_lens(midd.hypergraph.adjacency@);
+    assert(sl =~= sl2 && tl =~= tl2) by {
+        assert forall|j: int| 0 <= j < sl.len() implies sl[j] == sl2[j] && tl[j] == tl2[j] by {
+            assert(mapped(l.hypergraph.adjacency@[j].sources@, mid.hypergraph.adjacency@[j].sources@, q) && mapped(l.hypergraph.adjacency@[j].targets@, mid.hypergraph.adjacency@[j].targets@, q));
+            assert(mapped(ld.hypergraph.adjacency@[j].sources@, midd.hypergraph.adjacency@[j].sources@, q2) && mapped(ld.hypergraph.adjacency@[j].targets@, midd.hypergraph.adjacency@[j].targets@, q2));
+        }
+    }
+    assert forall|i: int| 0 <= i < d.h.s.values.table@.len() implies (#[trigger] sd.h.s.values.table@[i]) == phi[d.h.s.values.table@[i] as int] by {
+        let (j, kk) = lemma_seg_find(sl, i);
+        let x = l.hypergraph.adjacency@[j].sources@[kk].0 as int; assert(x < n);
+        assert(s.h.s.values.table@[seg_at(sl, j, kk)] == mid.hypergraph.adjacency@[j].sources@[kk].0);
+        assert(sd.h.s.values.table@[seg_at(sl2, j, kk)] == midd.hypergraph.adjacency@[j].sources@[kk].0);
+        assert(mapped(l.hypergraph.adjacency@[j].sources@, mid.hypergraph.adjacency@[j].sources@, q));
+        assert(mapped(ld.hypergraph.adjacency@[j].sources@, midd.hypergraph.adjacency@[j].sources@, q2));
+        assert(phi[q[x] as int] == q2[x]);
+    }
+    assert forall|i: int| 0 <= i < d.h.t.values.table@.len() implies (#[trigger] sd.h.t.values.table@[i]) == phi[d.h.t.values.table@[i] as int] by {
+        let (j, kk) = lemma_seg_find(tl, i);
+        let x = l.hypergraph.adjacency@[j].targets@[kk].0 as int; assert(x < n);
+        assert(s.h.t.values.table@[seg_at(tl, j, kk)] == mid.hypergraph.adjacency@[j].targets@[kk].0);
+        assert(sd.h.t.values.table@[seg_at(tl2, j, kk)] == midd.hypergraph.adjacency@[j].targets@[kk].0);
+        assert(mapped(l.hypergraph.adjacency@[j].targets@, mid.hypergraph.adjacency@[j].targets@, q));
+        assert(mapped(ld.hypergraph.adjacency@[j].targets@, midd.hypergraph.adjacency@[j].targets@, q2));
+        assert(phi[q[x] as int] == q2[x]);
+    }
+    assert forall|i: int| 0 <= i < d.s.table@.len() implies (#[trigger] sd.s.table@[i]) == phi[d.s.table@[i] as int] by {
+        let x = l.targets@[i].0 as int; assert(x < n);
+        assert(ids(mid.targets@)[i] == mid.targets@[i].0); assert(ids(midd.sources@)[i] == midd.sources@[i].0);
+        assert(phi[q[x] as int] == q2[x]);
+    }
+    assert forall|i: int| 0 <= i < d.t.table@.len() implies (#[trigger] sd.t.table@[i]) == phi[d.t.table@[i] as int] by {
+        let x = l.sources@[i].0 as int; assert(x < n);
+        assert(ids(mid.sources@)[i] == mid.sources@[i].0); assert(ids(midd.targets@)[i] == midd.targets@[i].0);
+        assert(phi[q[x] as int] == q2[x]);
+    }
+    assert(sd.h.x@ =~= d.h.x@);
+    assert(sd.h.s.sources.table@ =~= d.h.s.sources.table@ && sd.h.t.sources.table@ =~= d.h.t.sources.table@);
+    phi
+}
 ''')
